@@ -312,7 +312,7 @@ func ardDecodeImpl(ftype byte, isTCP bool, chunks [][]byte) string {
 
 func runC14(ctx *Ctx) error {
 	r, res := ctx.Rng, ctx.Res
-	res.Rule = "(1) correspondence: crc16Sum on random byte strings vs the model and vs an independent register implementation; writeCtrlFrame in both modes; readFrameOfType driven as decodeTNCStream drives it over random streams (serial: command and data frames mixed; TCP: one kind), split arbitrarily, with truncations, flipped bytes, data frames of 0..2 bytes, of 65533..65535 bytes and unknown type bytes, vs the model's decoder; parseCtrlMsg on every known command with every parameter form and without parameters, 'now ' echoes, case variations, lists, numbers incl. out of range, and random printable lines. (2) end-to-end against a scripted ARDOP TNC in serial mode (one in-memory link delivering at most 1..64 bytes per read) and, where loopback TCP is available, in TCP mode (two sockets): Open (INITIALIZE..GRIDSQUARE), Dial or Listen/Accept (with a first ARQ frame arriving before Accept is called, or between CONNECTED and the end of Dial), ARQ frames of 0..65532 bytes interleaved with PTT, BUFFER, BUSY, IDF/FEC frames and unknown lines, Read with random buffer sizes incl. a slow reader, Write incl. > 65535 bytes and CRCFAULT injections (1, 2 and 3 faults; also while another subscriber of the TNC's status messages (TNC.ListenEnabled) has stopped reading them), Flush that must not return before BUFFER 0, Close, a second session on the same TNC after ARQ-typed frames heard while disconnected, TNC.Close. Oracles from the property text: Read = concatenation of ARQ payloads in order; the TNC keeps frames whose payloads concatenate to the bytes Write reported as accepted, each frame with correct prefix/length/CRC (checked by the simulator's own CRC code); retransmissions are byte-identical; PTT calls equal the PTT lines in order; malformed input gives errors, not crashes. The wire frames and the PTT/queue outcome are also compared with the model. Non-trivial: scenario moving data in both directions with link pieces smaller than a frame; distinct by scenario parameters."
+	res.Rule = "(1) correspondence: crc16Sum on random byte strings vs the model and vs an independent register implementation; writeCtrlFrame in both modes; readFrameOfType driven as decodeTNCStream drives it over random streams (serial: command and data frames mixed; TCP: one kind), split arbitrarily, with truncations, flipped bytes, data frames of 0..2 bytes, of 65533..65535 bytes and unknown type bytes, vs the model's decoder; parseCtrlMsg on every known command with every parameter form and without parameters, 'now ' echoes, case variations, lists, numbers incl. out of range, and random printable lines. (2) end-to-end against a scripted ARDOP TNC in serial mode (one in-memory link delivering at most 1..64 bytes per read) and, where loopback TCP is available, in TCP mode (two sockets): Open (INITIALIZE..GRIDSQUARE), Dial or Listen/Accept (with a first ARQ frame arriving before Accept is called, or between CONNECTED and the end of Dial), ARQ frames of 0..65532 bytes interleaved with PTT, BUFFER, BUSY, IDF/FEC frames (also well-framed ID frames with unbalanced or empty brackets and random text) and unknown lines, Read with random buffer sizes incl. a slow reader, Write incl. > 65535 bytes and CRCFAULT injections (1, 2 and 3 faults; also while another subscriber of the TNC's status messages (TNC.ListenEnabled) has stopped reading them), Flush that must not return before BUFFER 0, Close, a second session on the same TNC after ARQ-typed frames heard while disconnected, TNC.Close. Oracles from the property text: Read = concatenation of ARQ payloads in order; the TNC keeps frames whose payloads concatenate to the bytes Write reported as accepted, each frame with correct prefix/length/CRC (checked by the simulator's own CRC code); retransmissions are byte-identical; PTT calls equal the PTT lines in order; malformed input gives errors, not crashes. The wire frames and the PTT/queue outcome are also compared with the model. Non-trivial: scenario moving data in both directions with link pieces smaller than a frame; distinct by scenario parameters."
 	log.SetOutput(io.Discard)
 
 	var lines, impl, sites []string
@@ -880,6 +880,10 @@ func (sc c14Scenario) run(r Rng) (fails []Failure, extra [][3]string) {
 					for k := 0; k < 3; k++ {
 						sim.sendData(append(be16b(k), r.Bytes(k)...))
 					}
+				}
+				// well-framed ID frames whose text is not an ID
+				for _, t := range []string{" " + sc.peer + ":[JP20QE", sc.peer + "]:[", "][", "[", "]", "", ":[]", "[]", " [JP20QE] ", sc.peer + ":[JP20QE] [", sc.peer + " [ ] [", string(r.Bytes(1 + r.Intn(30)))} {
+					sim.sendData(sim.frameData("IDF", []byte(t)))
 				}
 				sim.arq([]byte("still alive"))
 			}
